@@ -203,7 +203,7 @@ class Vals:
         found, open_ = [], [()]
         for s in reversed(block[:upto]):
             if binds(s, name):
-                d = s if not isinstance(s, (ast.For, ast.AsyncFor, ast.AugAssign)) else AMBIGUOUS
+                d = s if not isinstance(s, (ast.For, ast.AsyncFor)) else AMBIGUOUS
                 return found + [(g, d) for g in open_], []
             if not binds_deep(s, name):
                 continue
@@ -268,7 +268,7 @@ class Vals:
                     c = self.conj(c, self.cond(t, p, owner)) if c is not None else None
                 if c is None:
                     continue
-                v = def_value(d) if isinstance(d, ast.AST) else None
+                v = self._def_value(d, name) if isinstance(d, ast.AST) else None
                 if isinstance(d, ast.AST) and (name, id(d)) in self.overrides:
                     for c2, e2 in self.overrides[(name, id(d))]:
                         cc = self.conj(c, c2)
@@ -282,6 +282,87 @@ class Vals:
                 else:
                     out.append((c, _tag(name, d)))
         self._memo[key] = out
+        return out
+
+    @staticmethod
+    def _def_value(d, name):
+        """The expression whose value `name` gets from definition statement d (evaluated where d stands), else None:
+        x = e;  x: T = e;  x op= e (== x op e);  a, x, b = ea, ex, eb (parallel assignment: all right sides are evaluated first)."""
+        v = def_value(d)
+        if v is not None:
+            return v
+        if isinstance(d, ast.AugAssign) and isinstance(d.target, ast.Name) and d.target.id == name:
+            return ast.copy_location(ast.BinOp(left=ast.Name(id=name, ctx=ast.Load()), op=d.op, right=d.value), d)
+        if isinstance(d, ast.Assign) and len(d.targets) == 1 and isinstance(d.targets[0], (ast.Tuple, ast.List)) and isinstance(d.value, (ast.Tuple, ast.List)) \
+                and len(d.targets[0].elts) == len(d.value.elts) and not any(isinstance(x, ast.Starred) for x in d.targets[0].elts + d.value.elts):
+            hits = [k for k, t in enumerate(d.targets[0].elts) if isinstance(t, ast.Name) and t.id == name]
+            if len(hits) == 1 and all(isinstance(t, ast.Name) for t in d.targets[0].elts):
+                return d.value.elts[hits[0]]
+        return None
+
+    # -- calls of local accessor functions (closures defined in the analysed function)
+    def _local_defs(self, name, at):
+        if name in self.params:
+            return None
+        rd = self.rdefs(name, at)
+        if not any(isinstance(d, (ast.FunctionDef, ast.AsyncFunctionDef)) for _, d in rd):
+            return None
+        if not all(isinstance(d, ast.FunctionDef) for _, d in rd):
+            raise Undecided(f'{self.fi.name}: `{name}` is a local function on some paths only')
+        return rd
+
+    def _beta(self, fdef, call):
+        """Value of call(args) for a local function that is a single `return <expr>`: the expression with the parameters replaced
+        by the argument expressions.  Its free names are read when it is called, i.e. they resolve at the call site."""
+        what = f'{self.fi.name}: call of local function {fdef.name}()'
+        body = [x for x in fdef.body if not (isinstance(x, ast.Expr) and isinstance(x.value, ast.Constant))]
+        a = fdef.args
+        if len(body) != 1 or not isinstance(body[0], ast.Return) or body[0].value is None or fdef.decorator_list or a.vararg or a.kwarg or a.kwonlyargs or a.posonlyargs:
+            raise Undecided(f'{what}: its body is not a single return of an expression')
+        if any(isinstance(x, ast.Starred) for x in call.args) or any(k.arg is None for k in call.keywords) or len(call.args) > len(a.args):
+            raise Undecided(f'{what}: star arguments')
+        names = [x.arg for x in a.args]
+        mp = dict(zip(names, call.args))
+        for k in call.keywords:
+            if k.arg not in names or k.arg in mp:
+                raise Undecided(f'{what}: keyword {k.arg}')
+            mp[k.arg] = k.value
+        defaults = dict(zip(names[len(names) - len(a.defaults):], a.defaults))
+        for nm in names:
+            if nm not in mp:
+                if nm not in defaults or not isinstance(defaults[nm], ast.Constant):
+                    raise Undecided(f'{what}: parameter {nm} not supplied')
+                mp[nm] = defaults[nm]
+        v = body[0].value
+        if any(isinstance(x, (ast.Lambda, ast.ListComp, ast.SetComp, ast.DictComp, ast.GeneratorExp, ast.NamedExpr, ast.Yield, ast.Await)) for x in ast.walk(v)):
+            raise Undecided(f'{what}: its body binds names of its own')
+        return _clone(v, lambda n: mp.get(n.id) if isinstance(n, ast.Name) and isinstance(n.ctx, ast.Load) and not hasattr(n, 'bind') and n.id in mp else None)
+
+    def _calls(self, expr, at, depth=0):
+        node = None
+        for n in ast.walk(expr):
+            if isinstance(n, ast.Call) and isinstance(n.func, ast.Name) and not hasattr(n.func, 'bind'):
+                rd = self._local_defs(n.func.id, at)
+                if rd is not None:
+                    node = n
+                    break
+        if node is None:
+            return [(frozenset(), expr)]
+        if depth > 8:
+            raise Undecided(f'{self.fi.name}: local function calls nested too deeply in `{u(expr)[:50]}`')
+        out = []
+        for guards, fdef in rd:
+            c0 = frozenset()
+            for t, p, owner in guards:
+                c0 = self.conj(c0, self.cond(t, p, owner)) if c0 is not None else None
+            if c0 is None:
+                continue
+            val = self._beta(fdef, node)
+            e2 = _clone(expr, lambda n: val if n is node else None)
+            for c, e in self._calls(e2, at, depth + 1):
+                cc = self.conj(c0, c)
+                if cc is not None:
+                    out.append((cc, e))
         return out
 
     def _split(self, expr, at):
@@ -302,8 +383,8 @@ class Vals:
         """Every value `expr` can have at statement `at`, one per feasible path: [(atoms, resolved expression)]."""
         base = self.path(at) if path else frozenset()
         out = []
-        for c1, e1 in self._split(expr, at):
-            c = self.conj(base, c1)
+        for c1, e1 in [(self.conj(ca, cb), eb) for ca, ea in self._calls(expr, at) for cb, eb in self._split(ea, at)]:
+            c = self.conj(base, c1) if c1 is not None else None
             if c is None:
                 continue
             res = [(c, {})]
@@ -432,6 +513,126 @@ def view_axes(e, base, aff, slice_vars=()):
     return axes
 
 
+def _cmp_facts(test, pol):
+    """Comparisons implied by `test` having truth value pol: [(kind, left, right)], kind in eq / ne / is / isnot."""
+    if isinstance(test, ast.UnaryOp) and isinstance(test.op, ast.Not):
+        return _cmp_facts(test.operand, not pol)
+    if isinstance(test, ast.BoolOp):
+        if isinstance(test.op, ast.And) == pol:
+            return [f for v in test.values for f in _cmp_facts(v, pol)]
+        return []
+    if isinstance(test, ast.Compare) and len(test.ops) == 1:
+        t = type(test.ops[0])
+        k = {ast.Eq: ('eq', 'ne'), ast.NotEq: ('ne', 'eq'), ast.Is: ('is', 'isnot'), ast.IsNot: ('isnot', 'is')}.get(t)
+        if k:
+            return [(k[0] if pol else k[1], test.left, test.comparators[0])]
+    return []
+
+
+def paths_to(fn, target, name):
+    """Structured paths from the entry of fn to statement `target`, as far as `name` is concerned: [(facts, rebound)], facts =
+    [(test, polarity, if statement)] of the conditionals on the path that mention `name` (or contain statements that do), killed
+    when the path rebinds `name`.  Conditionals that have nothing to do with `name` are not split (superset of paths)."""
+    def mentions(node):
+        return any(isinstance(n, ast.Name) and n.id == name for n in ast.walk(node))
+
+    def inside(s):
+        return any(n is target for n in ast.walk(s))
+
+    def fall(block, states):
+        """states that fall out of the end of the block"""
+        for s in block:
+            if not states:
+                break
+            states = step(s, states)
+        return states
+
+    def step(s, states):
+        if isinstance(s, (ast.Raise, ast.Return, ast.Break, ast.Continue)):
+            return []
+        if isinstance(s, (ast.FunctionDef, ast.AsyncFunctionDef, ast.ClassDef)) or not mentions(s):
+            return states
+        if isinstance(s, ast.If):
+            return fall(s.body, [(f + ((s.test, True, s),), r) for f, r in states]) + fall(s.orelse, [(f + ((s.test, False, s),), r) for f, r in states])
+        if isinstance(s, (ast.For, ast.AsyncFor, ast.While)):
+            return states + fall(s.body, states)
+        if isinstance(s, (ast.With, ast.AsyncWith)):
+            return fall(s.body, states)
+        if isinstance(s, ast.Try):
+            raise Undecided(f'{fn.name}: `{name}` is handled inside a try statement')
+        if binds(s, name):
+            return [((), True) for _ in states][:1]
+        return states
+
+    def reach(block, states):
+        """states at `target`, None if target is not in this block"""
+        for s in block:
+            if s is target:
+                return states
+            if inside(s):
+                if isinstance(s, ast.If):
+                    r = reach(s.body, [(f + ((s.test, True, s),), rb) for f, rb in states])
+                    return r if r is not None else reach(s.orelse, [(f + ((s.test, False, s),), rb) for f, rb in states])
+                for fld in ('body', 'orelse', 'finalbody'):
+                    b = getattr(s, fld, None)
+                    if isinstance(b, list) and b and isinstance(b[0], ast.stmt):
+                        r = reach(b, states)
+                        if r is not None:
+                            return r
+                return None
+            states = step(s, states)
+        return None
+    return reach(fn.body, [((), False)])
+
+
+def buffer_validated(V, writes, alloc):
+    """On every path that reaches a statement writing cells into a buffer supplied by the caller (`out` not rebound on the path), the
+    path condition implies out.shape == <the shape a missing buffer is allocated with> and out.dtype == SCORE_DTYPE - whatever the
+    spelling of the check (if/elif chain, guard clauses, nested ifs, expanded helper).  Returns (ok, description of the failure)."""
+    def shape_cases(e, at):
+        out = set()
+        for cond, x in V.cases(e, at, path=False):
+            scalar = not isinstance(x, (ast.Tuple, ast.List)) and not term(x)
+            out.add((frozenset(cond), f'({u(x)},)' if scalar else u(x)))
+        return out
+    want = None
+    if alloc is not None and isinstance(alloc.value, ast.Call):
+        sh = get_arg(alloc.value, 0, 'shape')
+        want = shape_cases(sh, alloc) if isinstance(sh, ast.AST) else None
+    unknown = [x for x in V.stmts if isinstance(x, ast.If) and any(isinstance(n, ast.Attribute) and n.attr in ('shape', 'dtype', 'ndim', 'size') and _root(n) == 'out' for n in ast.walk(x.test))
+               and not _cmp_facts(x.test, True) and not _cmp_facts(x.test, False)]
+    for w in writes:
+        ps = paths_to(V.fn, w, 'out')
+        if ps is None:
+            continue
+        for facts, rebound in ps:
+            if rebound:
+                continue
+            cf = [(k, l, r, st) for t, pol, st in facts for k, l, r in _cmp_facts(t, pol)]
+            if any(k == 'is' and {u(l), u(r)} == {'out', 'None'} for k, l, r, _ in cf):
+                continue    # no buffer on this path (the allocation rule's business)
+            shape_eq = [(l, r, st) for k, l, r, st in cf if k == 'eq' and 'out.shape' in (u(l), u(r))]
+            shape_ne = [1 for k, l, r, st in cf if k == 'ne' and 'out.shape' in (u(l), u(r))]
+            dt_eq = [1 for k, l, r, st in cf if k == 'eq' and {u(l), u(r)} == {'out.dtype', 'SCORE_DTYPE'}]
+            dt_ne = [1 for k, l, r, st in cf if k == 'ne' and {u(l), u(r)} == {'out.dtype', 'SCORE_DTYPE'}]
+            where = f'`{u(w)[:50]}` is reached with the caller\'s buffer under {[("" if pol else "not ") + u(t)[:40] for t, pol, _ in facts]}'
+            if shape_ne or dt_ne:
+                return False, f'{where}: the buffer is known to have the WRONG {"shape" if shape_ne else "dtype"} there'
+            if (not shape_eq or not dt_eq) and unknown:
+                raise Undecided(f'{V.fi.name}: the output buffer is tested by `{u(unknown[0].test)[:60]}`, a form of shape / dtype check the rule does not evaluate')
+            if not shape_eq:
+                return False, f'{where}: nothing on that path implies out.shape == expected shape'
+            if not dt_eq:
+                return False, f'{where}: nothing on that path implies out.dtype == SCORE_DTYPE'
+            if want is not None:
+                for l, r, st in shape_eq:
+                    e = r if u(l) == 'out.shape' else l
+                    got = shape_cases(e, st)
+                    if got != want:
+                        return False, f'{where}: the shape compared, {sorted(t for _, t in got)}, is not the shape a missing buffer is allocated with, {sorted(t for _, t in want)}'
+    return True, None
+
+
 def out_aliases(fi):
     """Names that may be / must be views of the output buffer: `out` itself, locals defined as subscripts of a view, and loop
     variables iterating over a view.  (may: some definition is a view - stores through it are checked; must: all are.)"""
@@ -491,7 +692,10 @@ def check_stores(ctx):
         rep.functions.add(fi.qualname)
         V = Vals(fi)
         al, must = out_aliases(fi)
+        writes = []     # statements that write cells of the buffer (stores, kernels / delegates given a view of it)
         for s in stmts_in(fi.node.body):
+            if isinstance(s, (ast.Assign, ast.AugAssign)) and any(isinstance(t, ast.Subscript) and _root(t) in al for t in (s.targets if isinstance(s, ast.Assign) else [s.target])):
+                writes.append(s)
             if isinstance(s, ast.AugAssign) and _root(s.target) in al:
                 rep.add('B1', fi.site(s), 'no arithmetic is performed on an output cell', False, expected='kernel value / copy / zero', found=u(s), stmt=s)
             if isinstance(s, ast.Assign):
@@ -515,6 +719,8 @@ def check_stores(ctx):
             uses_out = [a for a in list(c.args) + [k.value for k in c.keywords] if _root(a) in al] if not isinstance(c.func, ast.Attribute) or _root(c.func) not in al else [c.func]
             if not uses_out:
                 continue
+            if u(c.func) not in ('len',) and V.stmt_of(c) is not None and not isinstance(V.stmt_of(c), ast.Raise):
+                writes.append(V.stmt_of(c))
             if f == f'{MET}.jaccarddist_array' and o is not None and _root(o) in al:
                 kinds.setdefault('delegate', []).append(c)
                 rep.add('B1', fi.site(c), 'cells are filled by jaccarddist_array writing into a view of the buffer', True, found=u(c)[:70], stmt=c)
@@ -541,10 +747,9 @@ def check_stores(ctx):
         rep.add('B1', fi.site(allocs[0] if allocs else None), 'a missing output buffer is allocated as float32 (no widening/narrowing of kernel values)', oka, expected='out = np.empty(shape, SCORE_DTYPE) under out is None',
                 found=[u(a) for a in allocs], stmt=f'{fname} alloc')
         rs = [s for s in stmts_in(fi.node.body) if isinstance(s, ast.Raise)]
-        dt = any(any(a[0] == 'ne' and 'out.dtype' in a and 'SCORE_DTYPE' in a for a in path_atoms(gm[r])) for r in rs)
-        sh = any(any(a[0] == 'ne' and 'out.shape' in a for a in path_atoms(gm[r])) for r in rs)
-        rep.add('B1', fi.site(rs[0] if rs else None), 'a caller-supplied buffer must have the exact shape and float32 dtype', dt and sh, expected='raise ValueError on shape / dtype mismatch', found=[u(r)[:50] for r in rs],
-                stmt=f'{fname} buffer validation')
+        okb, why = buffer_validated(V, writes, allocs[0] if len(allocs) == 1 else None)
+        rep.add('B1', fi.site(rs[0] if rs else None), 'a caller-supplied buffer must have the exact shape and float32 dtype', okb, expected='every path that reaches a store with the caller\'s buffer implies out.shape == <allocation shape> and '
+                'out.dtype == SCORE_DTYPE (raise ValueError on mismatch)', found=why or [u(r)[:50] for r in rs], stmt=f'{fname} buffer validation')
     rep.floor('B1', 'store kinds seen', len(kinds), 4)
     rep.info['store_kinds'] = {k: len(v) for k, v in kinds.items()}
 
@@ -813,10 +1018,10 @@ def generator_items(m, fi, V, loop):
     return item_name, args[next(iter(iter_params))]
 
 
-def every_iteration(V, stmt, loop, what):
+def every_iteration(V, stmt, loop, what, allowed=()):
     """The statement that fills the cells must run on every iteration of its loop(s): a guard between the loop header and the
     statement (if / continue / break) leaves cells unwritten unless it is always true, which the rules do not evaluate."""
-    extra = V.path(stmt) - V.path(loop)
+    extra = (V.path(stmt) - V.path(loop)) - set(allowed)
     jumps = [x for x in stmts_in(loop.body) if isinstance(x, (ast.Break, ast.Continue)) or (isinstance(x, ast.Return) and V.before(x, stmt))]
     if extra or jumps:
         raise Undecided(f'{V.fi.name}: {what} is executed only under {sorted(extra) if extra else u(jumps[0])} inside its loop; whether every cell is still written is not evaluated')
@@ -828,6 +1033,16 @@ def sequence_stable(V, name):
         ok = isinstance(s, ast.Assign) and len(s.targets) == 1 and isinstance(s.targets[0], ast.Name) and u(s.value) == f'SignatureList({name})' and not V.loops_around(s)
         if not ok:
             raise Undecided(f'{V.fi.name}: sequence parameter `{name}` is rebound by `{u(s)[:60]}`; its uses cannot be compared across statements')
+
+
+def list_wrap(rep, rule, fi, V, seq, what):
+    """A sequence that is not a signature array is wrapped (order-preservingly) so that slices and index arrays can select from it;
+    signature arrays are used as they are."""
+    wrap = [x for x in assigns_to(fi.node, seq)]
+    okw = len(wrap) == 1 and isinstance(wrap[0], ast.Assign) and u(wrap[0].value) == f'SignatureList({seq})' and not V.loops_around(wrap[0]) \
+        and ('false', f'isinstance({seq}, AbstractSignatureArray)') in V.path(wrap[0])
+    rep.add(rule, fi.site(wrap[0] if wrap else None), f'a plain list of {what} is wrapped order-preservingly to support index selections', okw, expected=f'{seq} = SignatureList({seq}) unless isinstance({seq}, AbstractSignatureArray)',
+            found=[(u(w)[:70], sorted(V.path(w))) for w in wrap], stmt='list wrap')
 
 
 def _sel_atoms(name):
@@ -925,7 +1140,8 @@ def check_matrix(ctx):
             nexp = sa[1] if len(sa) == 2 else None
         elif isinstance(e, ast.Call) and m.resolve_call(fi, e) == 'gambit.util.misc.chunk_slices':
             nexp, sz = get_arg(e, 0, 'n'), get_arg(e, 1, 'size')
-            oks = oks and isinstance(sz, ast.AST) and term(sz, csp, PARAM)
+            # the chunk size must be the caller's, and there must be one: chunk_slices(n, None) cannot tile anything
+            oks = oks and isinstance(sz, ast.AST) and term(sz, csp, PARAM) and ('is', 'None', csp) not in cond
         else:
             raise Undecided(f'jaccarddist_matrix: the chunk loop iterates over `{u(e)[:70]}`, which is neither a one-slice list nor chunk_slices(...)')
         ncols_seen.append(u(nexp))
@@ -944,9 +1160,7 @@ def check_matrix(ctx):
             oksh = oksh and isinstance(e, ast.Tuple) and len(e.elts) == 2 and u(e.elts[0]) == f'len({qp})' and term(e.elts[0].args[0], qp, PARAM) and _count(e.elts[1], cond, rp, rip, 'jaccarddist_matrix shape')
     rep.add('B5', fi.site(alloc[0] if alloc else None), 'the matrix has one row per query and one column per selected reference', oksh, expected=f'(len({qp}), number of selected references)',
             found=V.show(shp) if shp else [u(a.value) for a in alloc], stmt='matrix shape')
-    wrap = [s for s in fi.node.body if isinstance(s, ast.If) and any(isinstance(x, ast.Assign) and u(x.targets[0]) == rp for x in s.body)]
-    okw = len(wrap) == 1 and u(wrap[0].body[0].value) == f'SignatureList({rp})' and ('false', f'isinstance({rp}, AbstractSignatureArray)') in path_atoms(gm[wrap[0].body[0]])
-    rep.add('B5', fi.site(wrap[0] if wrap else None), 'a plain list of references is wrapped order-preservingly to support index selections', okw, expected=f'{rp} = SignatureList({rp})', found=[u(w)[:70] for w in wrap], stmt='list wrap')
+    list_wrap(rep, 'B5', fi, V, rp, 'references')
     # chunk_slices
     fc = m.func('gambit.util.misc.chunk_slices')
     rep.functions.add(fc.qualname)
@@ -1052,148 +1266,177 @@ def condensed_block_ok(lo, hi, is_i, is_n, is_np):
     return True
 
 
+def _opaque_def(e):
+    """A terminal whose value comes from a statement the resolver cannot take apart (e.g. unpacking the result of a call)."""
+    return term(e) and isinstance(e.bind, (ast.Assign, ast.AnnAssign, ast.AugAssign))
+
+
 def check_pairwise(ctx):
+    """The rows may be filled at ONE call site or at several (e.g. one loop / one branch per layout): every site is checked under
+    its own path condition, and the sites together must cover the square and the condensed layout."""
     rep, m = ctx.rep, ctx.model
     fi = m.func(f'{MET}.jaccarddist_pairwise')
     V = Vals(fi)
     sp, ip, fp = fi.params()[:3]
     FLAT = (('true', fp), ('false', fp))
     calls = [c for c in calls_in(fi.node) if m.resolve_call(fi, c) == f'{MET}.jaccarddist_array']
-    rep.require(len(calls) == 1, 'jaccarddist_pairwise: expected one jaccarddist_array call')
-    c = calls[0]
-    st = V.stmt_of(c)
-    loops = V.loops_around(st)
-    loop = loops[-1] if loops else None
-    rep.require(len(loops) == 1 and isinstance(loop, ast.For) and isinstance(loop.target, ast.Name), 'jaccarddist_pairwise: row loop not found')
+    rep.require(len(calls) >= 1, 'jaccarddist_pairwise: expected a jaccarddist_array call')
+    sites = []
+    for c in calls:
+        st = V.stmt_of(c)
+        loops = V.loops_around(st)
+        loop = loops[-1] if loops else None
+        rep.require(len(loops) == 1 and isinstance(loop, ast.For) and isinstance(loop.target, ast.Name), 'jaccarddist_pairwise: row loop not found')
+        sites.append((c, st, loop))
     selector_stable(V, ip, True)
     selector_stable(V, fp, False)
-    i = loop.target.id
 
-    def is_i(e):
-        return term(e, i, loop)
+    def is_np(e):
+        return isinstance(e, ast.Call) and m.resolve_call(fi, e) == f'{MET}.num_pairs' and len(e.args) == 1 and not e.keywords
 
     def is_n_under(cond, what):
         md = mode(cond, *_sel_atoms(ip), what)
         want = None if md is None else (sp if md else ip)
         return lambda e: want is not None and isinstance(e, ast.Call) and isinstance(e.func, ast.Name) and e.func.id == 'len' and len(e.args) == 1 and not e.keywords and term(e.args[0], want, PARAM)
-
-    def is_np(e):
-        return isinstance(e, ast.Call) and m.resolve_call(fi, e) == f'{MET}.num_pairs' and len(e.args) == 1 and not e.keywords
-
-    def aff_under(cond, what):
-        """Affine form over the symbols i and n, n being the number of selected signatures under this condition."""
-        is_n = is_n_under(cond, what)
-
-        def aff(e):
-            return Aff.try_of(_clone(e, lambda x: _tag('__n', 'count') if is_n(x) else _tag('__i', 'row') if is_i(x) else None))
-        return aff
     I, N = sym('__i'), sym('__n')
     COLS = ('slice', I.plus(1), N)
-    # row range
-    rcs = _single(V, loop.iter, loop, 'row range')
-    okrng = True
-    for cond, e in rcs:
-        ok1 = isinstance(e, ast.Call) and isinstance(e.func, ast.Name) and e.func.id == 'range' and not e.keywords and len(e.args) in (1, 2) and (len(e.args) == 1 or is_const(e.args[0], 0))
-        okrng = okrng and ok1 and aff_under(cond, 'row range')(e.args[-1]) == N.plus(-1)
-    rep.add('B6', fi.site(loop), 'rows 0 .. n-2 are computed (the last row has no columns to its right)', okrng, expected='range(n - 1), n = number of selected signatures', found=V.show(rcs), stmt='row range')
-    a0, a1, o = get_arg(c, 0, 'query'), get_arg(c, 1, 'refs'), get_arg(c, 2, 'out')
-    rep.require(all(isinstance(x, ast.AST) for x in (a0, a1, o)), 'jaccarddist_pairwise: jaccarddist_array call without query / refs / out')
+    covered = set()
+    for c, st, loop in sites:
+        i = loop.target.id
+        site_mode = mode(V.path(st), *FLAT, 'jaccarddist_pairwise call site')
+        covered |= {True, False} if site_mode is None else {site_mode}
 
-    def is_cols(cond, what):
-        aff = aff_under(cond, what)
+        def is_i(e, i=i, loop=loop):
+            return term(e, i, loop)
 
-        def f(e):
-            try:
-                return index_elem(e, aff) == COLS
-            except Undecided:
-                return False
-        return f
-    ccs = _single(V, a1, st, 'column signatures')
-    # the column slice as the column operand spells it (for messages) and its correctness
-    okcols = all(isinstance(e, ast.Subscript) and (is_cols(cond, 'cols')(e.slice) or (isinstance(e.slice, ast.Subscript) and is_cols(cond, 'cols')(e.slice.slice))) for cond, e in ccs)
-    rep.add('B6', fi.site(c), 'columns of row i are slice(i + 1, n)', okcols, expected='slice(i + 1, n)', found=V.show(ccs), stmt='cols')
-    rows = _single(V, a0, st, 'row signature')
-    okrow = all(_selected(e, cond, sp, ip, is_i, 'jaccarddist_pairwise row signature') for cond, e in rows)
-    rep.add('B6', fi.site(c), 'row signature is signature i (directly or through the index selection)', okrow, expected=f'{sp}[{i}] | {sp}[{ip}[{i}]]', found=V.show(rows), stmt='row signature')
-    okcol = all(_selected(e, cond, sp, ip, is_cols(cond, 'column signatures'), 'jaccarddist_pairwise column signatures') for cond, e in ccs)
-    rep.add('B6', fi.site(c), 'column signatures are selected by the same cols slice (directly or through the index selection)', okcol, expected=f'{sp}[cols] | {sp}[{ip}[cols]]', found=V.show(ccs), stmt='column signatures')
-    # row block of the output
-    ocs = _single(V, o, st, 'row block')
-    okblk, oklen, counters, closed = True, True, set(), []
-    for cond, e in ocs:
-        fl = mode(cond, *FLAT, 'jaccarddist_pairwise row block')
-        aff = aff_under(cond, 'row block')
-        if fl is None:
-            okblk = False
-            continue
-        if not fl:
-            ax = view_axes(e, 'out', aff)
-            okblk = okblk and ax is not None and ax == {0: ('int', I), 1: COLS}
-            continue
-        # condensed: out[lo:hi] with hi - lo == n - i - 1 and lo the number of pairs of the rows before i
-        if not (isinstance(e, ast.Subscript) and term(e.value, 'out', PARAM) and isinstance(e.slice, ast.Slice) and e.slice.step is None and e.slice.lower is not None and e.slice.upper is not None):
-            okblk = False
-            continue
-        lo, hi = e.slice.lower, e.slice.upper
-        cnt = [n for n in ast.walk(lo) if isinstance(n, ast.Name) and getattr(n, 'bind', None) is AMBIGUOUS]
-        if cnt:
-            # running counter: lo is the counter itself, hi = counter + (n - i - 1); its initialisation / advance are checked below
-            name = lo.id if isinstance(lo, ast.Name) else None
-            a_hi = aff(_clone(hi, lambda x: _tag('__cnt', 'cnt') if term(x, name, AMBIGUOUS) else None)) if name else None
-            okblk = okblk and name is not None
-            oklen = oklen and a_hi is not None and a_hi == sym('__cnt').add(N).sub(I).plus(-1)
-            if name:
-                counters.add(name)
-        else:
-            is_n = is_n_under(cond, 'row block')
-            r = condensed_block_ok(lo, hi, is_i, is_n, is_np)
-            if r is None:
-                raise Undecided(f'jaccarddist_pairwise: condensed row block out[{u(lo)}:{u(hi)}] is neither a running counter nor an integer expression over i, n and num_pairs() that can be evaluated')
-            closed.append(f'out[{u(lo)}:{u(hi)}]')
-            okblk = okblk and r
-            oklen = oklen and r
-    rep.add('B6', fi.site(loop), 'ncol == n - i - 1 == length of that slice', oklen, expected='condensed block of row i has n - i - 1 cells', found=V.show(ocs), stmt='ncol')
-    rep.add('B6', fi.site(c), 'row block = out[i, cols] (square) or out[next : next + ncol] (condensed)', okblk, expected=f'out[{i}, {i} + 1:n] | out[next:next + ncol]', found=V.show(ocs), stmt='row block')
-    for nxt in sorted(counters):
-        init = [s for s in V.stmts if isinstance(s, ast.Assign) and any(u(t) == nxt for t in s.targets)]
-        adv = [s for s in V.stmts if isinstance(s, ast.AugAssign) and u(s.target) == nxt]
-        other = [s for s in assigns_to(fi.node, nxt) if s not in init and s not in adv]
-        oka = len(init) == 1 and not other and is_const(init[0].value, 0) and ('true', fp) in V.path(init[0]) and not V.loops_around(init[0]) and V.before(init[0], loop) and len(adv) == 1 and isinstance(adv[0].op, ast.Add)
-        if oka:
-            acs = V.cases(adv[0].value, adv[0])
-            oka = bool(acs) and all(aff_under(cond, 'flat offset')(e) == N.sub(I).plus(-1) for cond, e in acs) and ('true', fp) in V.path(adv[0]) and V.before(st, adv[0]) and V.loops_around(adv[0]) == [loop]
-        rep.add('B6', fi.site(adv[0] if adv else loop), 'condensed offset starts at 0 and advances by ncol after each row (scipy squareform layout)', oka, expected=f'{nxt} = 0; {nxt} += n - i - 1', found=[u(s) for s in init + adv + other], stmt='flat offset')
-    if closed and not counters:
-        rep.add('B6', fi.site(c), 'condensed offset starts at 0 and advances by ncol after each row (scipy squareform layout)', okblk, expected='offset of row i = sum over k < i of (n - 1 - k)', found=closed, stmt='flat offset')
-    # mirror
-    mir = [s for s in stmts_in(loop.body) if isinstance(s, ast.Assign) and isinstance(s.targets[0], ast.Subscript) and _root(s.targets[0]) == 'out']
-    okm = len(mir) == 1 and len(mir[0].targets) == 1 and ('false', fp) in V.path(mir[0]) and V.before(st, mir[0]) and V.loops_around(mir[0]) == [loop]
-    mshow = [u(s) for s in mir]
-    if okm:
-        tcs = V.cases(mir[0].targets[0], mir[0])
-        vcs = V.cases(mir[0].value, mir[0])
-        okm = bool(tcs) and bool(vcs)
-        for cond, e in tcs:
-            ax = view_axes(e, 'out', aff_under(cond, 'mirror'))
-            okm = okm and ax == {0: COLS, 1: ('int', I)}
-        for cond, e in vcs:
-            ax = view_axes(e, 'out', aff_under(cond, 'mirror'))
-            okm = okm and ax == {0: ('int', I), 1: COLS}
-        mshow = [f'{a} = {b}' for a in V.show(tcs) for b in V.show(vcs)]
-    rep.add('B6', fi.site(mir[0] if mir else loop), 'the square matrix is made symmetric by copying the row just written to the transposed column', okm, expected=f'out[cols, {i}] = out[{i}, cols] (after the row is computed, square only)',
-            found=mshow, stmt='mirror')
+        def aff_under(cond, what, is_i=is_i):
+            """Affine form over the symbols i and n, n being the number of selected signatures under this condition."""
+            is_n = is_n_under(cond, what)
+
+            def aff(e):
+                return Aff.try_of(_clone(e, lambda x: _tag('__n', 'count') if is_n(x) else _tag('__i', 'row') if is_i(x) else None))
+            return aff
+        # row range
+        rcs = _single(V, loop.iter, loop, 'row range')
+        okrng = True
+        for cond, e in rcs:
+            ok1 = isinstance(e, ast.Call) and isinstance(e.func, ast.Name) and e.func.id == 'range' and not e.keywords and len(e.args) in (1, 2) and (len(e.args) == 1 or is_const(e.args[0], 0))
+            okrng = okrng and ok1 and aff_under(cond, 'row range')(e.args[-1]) == N.plus(-1)
+        rep.add('B6', fi.site(loop), 'rows 0 .. n-2 are computed (the last row has no columns to its right)', okrng, expected='range(n - 1), n = number of selected signatures', found=V.show(rcs), stmt='row range')
+        a0, a1, o = get_arg(c, 0, 'query'), get_arg(c, 1, 'refs'), get_arg(c, 2, 'out')
+        rep.require(all(isinstance(x, ast.AST) for x in (a0, a1, o)), 'jaccarddist_pairwise: jaccarddist_array call without query / refs / out')
+
+        def is_cols(cond, what, aff_under=aff_under):
+            aff = aff_under(cond, what)
+
+            def f(e):
+                try:
+                    return index_elem(e, aff) == COLS
+                except Undecided:
+                    return False
+            return f
+        ccs = _single(V, a1, st, 'column signatures')
+        rows = _single(V, a0, st, 'row signature')
+        ocs = _single(V, o, st, 'row block')
+        for what, cs in (('column signatures', ccs), ('row signature', rows), ('row block', ocs)):
+            for _, e in cs:
+                if _opaque_def(e):
+                    raise Undecided(f'jaccarddist_pairwise: the {what} operand `{e.id}` is produced by `{u(e.bind)[:60]}`, which the rules do not take apart')
+        okcols = all(isinstance(e, ast.Subscript) and (is_cols(cond, 'cols')(e.slice) or (isinstance(e.slice, ast.Subscript) and is_cols(cond, 'cols')(e.slice.slice))) for cond, e in ccs)
+        rep.add('B6', fi.site(c), 'columns of row i are slice(i + 1, n)', okcols, expected='slice(i + 1, n)', found=V.show(ccs), stmt='cols')
+        okrow = all(_selected(e, cond, sp, ip, is_i, 'jaccarddist_pairwise row signature') for cond, e in rows)
+        rep.add('B6', fi.site(c), 'row signature is signature i (directly or through the index selection)', okrow, expected=f'{sp}[{i}] | {sp}[{ip}[{i}]]', found=V.show(rows), stmt='row signature')
+        okcol = all(_selected(e, cond, sp, ip, is_cols(cond, 'column signatures'), 'jaccarddist_pairwise column signatures') for cond, e in ccs)
+        rep.add('B6', fi.site(c), 'column signatures are selected by the same cols slice (directly or through the index selection)', okcol, expected=f'{sp}[cols] | {sp}[{ip}[cols]]', found=V.show(ccs), stmt='column signatures')
+        # row block of the output
+        okblk, oklen, counters, closed = True, True, set(), []
+        for cond, e in ocs:
+            fl = mode(cond, *FLAT, 'jaccarddist_pairwise row block')
+            aff = aff_under(cond, 'row block')
+            if fl is None:
+                okblk = False
+                continue
+            if not fl:
+                ax = view_axes(e, 'out', aff)
+                okblk = okblk and ax is not None and ax == {0: ('int', I), 1: COLS}
+                continue
+            # condensed: out[lo:hi] with hi - lo == n - i - 1 and lo the number of pairs of the rows before i
+            if not (isinstance(e, ast.Subscript) and term(e.value, 'out', PARAM) and isinstance(e.slice, ast.Slice) and e.slice.step is None and e.slice.lower is not None and e.slice.upper is not None):
+                okblk = False
+                continue
+            lo, hi = e.slice.lower, e.slice.upper
+            cnt = [x for x in ast.walk(lo) if isinstance(x, ast.Name) and getattr(x, 'bind', None) is AMBIGUOUS]
+            if cnt:
+                # running counter: lo is the counter as it stands before this row's advance, hi = that + (n - i - 1); its initialisation
+                # and its single advance per row are checked below
+                name = lo.id if isinstance(lo, ast.Name) else None
+                a_hi = aff(_clone(hi, lambda x: _tag('__cnt', 'cnt') if term(x, name, AMBIGUOUS) else None)) if name else None
+                okblk = okblk and name is not None
+                oklen = oklen and a_hi is not None and a_hi == sym('__cnt').add(N).sub(I).plus(-1)
+                if name:
+                    counters.add(name)
+            else:
+                is_n = is_n_under(cond, 'row block')
+                r = condensed_block_ok(lo, hi, is_i, is_n, is_np)
+                if r is None:
+                    raise Undecided(f'jaccarddist_pairwise: condensed row block out[{u(lo)}:{u(hi)}] is neither a running counter nor an integer expression over i, n and num_pairs() that can be evaluated')
+                closed.append(f'out[{u(lo)}:{u(hi)}]')
+                okblk = okblk and r
+                oklen = oklen and r
+        rep.add('B6', fi.site(loop), 'ncol == n - i - 1 == length of that slice', oklen, expected='condensed block of row i has n - i - 1 cells', found=V.show(ocs), stmt='ncol')
+        rep.add('B6', fi.site(c), 'row block = out[i, cols] (square) or out[next : next + ncol] (condensed)', okblk, expected=f'out[{i}, {i} + 1:n] | out[next:next + ncol]', found=V.show(ocs), stmt='row block')
+        for nxt in sorted(counters):
+            # the counter is 0 before the first row and is advanced exactly once per row by the length of that row's block; the block
+            # starts at the counter as it stands before the advance (a read after the advance would have resolved to counter + length)
+            binds_all = assigns_to(fi.node, nxt)
+            init = [x for x in binds_all if not V.loops_around(x)]
+            adv = [x for x in binds_all if V.loops_around(x) == [loop]]
+            other = [x for x in binds_all if x not in init and x not in adv]
+            oka = len(init) == 1 and not other and len(adv) == 1 and V.before(init[0], loop) and mode(V.path(init[0]), *FLAT, 'counter initialisation') is not False
+            if oka:
+                iv = Vals._def_value(init[0], nxt)
+                oka = iv is not None and is_const(iv, 0)
+            if oka:
+                av = Vals._def_value(adv[0], nxt)
+                acs = V.cases(av, adv[0]) if av is not None else []
+                oka = bool(acs) and (V.path(adv[0]) - V.path(loop)) <= {FLAT[0]} and mode(V.path(adv[0]), *FLAT, 'counter advance') is True
+                for cond, e in acs:
+                    a_new = aff_under(cond, 'flat offset')(_clone(e, lambda x: _tag('__cnt', 'cnt') if term(x, nxt, AMBIGUOUS) else None))
+                    oka = oka and a_new is not None and a_new == sym('__cnt').add(N).sub(I).plus(-1)
+            rep.add('B6', fi.site(adv[0] if adv else loop), 'condensed offset starts at 0 and advances by ncol after each row (scipy squareform layout)', oka, expected=f'{nxt} = 0; {nxt} += n - i - 1 once per row', found=[u(x) for x in binds_all],
+                    stmt='flat offset')
+        if closed and not counters:
+            rep.add('B6', fi.site(c), 'condensed offset starts at 0 and advances by ncol after each row (scipy squareform layout)', okblk, expected='offset of row i = sum over k < i of (n - 1 - k)', found=closed, stmt='flat offset')
+        # mirror: the stores into the buffer that run in square mode in this loop
+        if site_mode is not True:
+            mir = [x for x in stmts_in(loop.body) if isinstance(x, ast.Assign) and isinstance(x.targets[0], ast.Subscript) and _root(x.targets[0]) == 'out' and mode(V.path(x), *FLAT, 'mirror store') is not True]
+            okm = len(mir) == 1 and len(mir[0].targets) == 1 and ('false', fp) in V.path(mir[0]) and V.before(st, mir[0]) and V.loops_around(mir[0]) == [loop] and (V.path(mir[0]) - V.path(loop)) <= {FLAT[1]}
+            mshow = [u(x) for x in mir]
+            if okm:
+                tcs = V.cases(mir[0].targets[0], mir[0])
+                vcs = V.cases(mir[0].value, mir[0])
+                okm = bool(tcs) and bool(vcs)
+                for cond, e in tcs:
+                    ax = view_axes(e, 'out', aff_under(cond, 'mirror'))
+                    okm = okm and ax == {0: COLS, 1: ('int', I)}
+                for cond, e in vcs:
+                    ax = view_axes(e, 'out', aff_under(cond, 'mirror'))
+                    okm = okm and ax == {0: ('int', I), 1: COLS}
+                mshow = [f'{a} = {b}' for a in V.show(tcs) for b in V.show(vcs)]
+            rep.add('B6', fi.site(mir[0] if mir else loop), 'the square matrix is made symmetric by copying the row just written to the transposed column', okm, expected=f'out[cols, {i}] = out[{i}, cols] (after the row is computed, square only)',
+                    found=mshow, stmt='mirror')
     fd = [c2 for c2 in calls_in(fi.node) if u(c2.func) in ('np.fill_diagonal', 'numpy.fill_diagonal')]
     okd = len(fd) == 1 and ('false', fp) in V.path(V.stmt_of(fd[0])) and not V.loops_around(V.stmt_of(fd[0]))
     rep.add('B6', fi.site(fd[0] if fd else None), 'zero diagonal is written in square mode', okd, expected='np.fill_diagonal(out, 0) when not flat', found=[u(x) for x in fd], stmt='diagonal')
     fn = m.func(f'{MET}.num_pairs')
     rep.functions.add(fn.qualname)
-    r = [s for s in fn.node.body if isinstance(s, ast.Return)]
+    r = [x for x in fn.node.body if isinstance(x, ast.Return)]
     n = fn.params()[0]
     v = r[0].value if r else None
     okn = isinstance(v, ast.BinOp) and isinstance(v.op, ast.FloorDiv) and is_const(v.right, 2) and isinstance(v.left, ast.BinOp) and isinstance(v.left.op, ast.Mult) \
         and {str(Aff.try_of(v.left.left)), str(Aff.try_of(v.left.right))} == {n, f'{n} - 1'}
     rep.add('B6', fn.site(), 'condensed length = n(n-1)/2', okn, expected=f'{n} * ({n} - 1) // 2', found=u(v), stmt='num_pairs')
-    allocs_p = [s for s in stmts_in(fi.node.body) if isinstance(s, ast.Assign) and u(s.targets[0]) == 'out' and isinstance(s.value, ast.Call) and u(s.value.func) == 'np.empty']
+    allocs_p = [x for x in stmts_in(fi.node.body) if isinstance(x, ast.Assign) and u(x.targets[0]) == 'out' and isinstance(x.value, ast.Call) and u(x.value.func) == 'np.empty']
     shp = []
     oksh = len(allocs_p) == 1
     if oksh:
@@ -1210,7 +1453,11 @@ def check_pairwise(ctx):
             else:
                 oksh = oksh and len(e.elts) == 2 and is_n(e.elts[0]) and is_n(e.elts[1])
     rep.add('B6', fi.site(allocs_p[0] if allocs_p else None), 'output is n x n (square) or num_pairs(n) long (condensed)', oksh, expected='(num_pairs(n),) if flat else (n, n)', found=V.show(shp), stmt='pairwise shape')
-    every_iteration(V, st, loop, 'the jaccarddist_array call')
+    # every row of both layouts is filled: each site runs on every iteration of its loop (its layout apart), the sites cover both layouts
+    for c, st, loop in sites:
+        every_iteration(V, st, loop, 'the jaccarddist_array call', allowed=set(FLAT))
+    rep.require(covered == {True, False}, f'jaccarddist_pairwise: the jaccarddist_array call sites cover only the layout(s) {sorted("condensed" if x else "square" for x in covered)}; how the other one is filled is not evaluated')
+    list_wrap(rep, 'B6', fi, V, sp, 'signatures')
     sequence_stable(V, sp)
 
 
@@ -1274,6 +1521,27 @@ _ROWCOL = ("\t\t\trow_sig = sigs[i] if indices is None else sigs[indices[i]]\n\n
 _ROWOUT = "\t\t\trow_out = out[next_out:next_out+ncol] if flat else out[i, cols]\n"
 _NOCOUNTER = [(_P, "\tif flat:\n\t\tnext_out = 0\n\telse:\n\t\tnp.fill_diagonal(out, 0)\n", "\tif not flat:\n\t\tnp.fill_diagonal(out, 0)\n"),
               (_P, "\t\t\tif flat:\n\t\t\t\tnext_out += ncol\n\t\t\telse:\n", "\t\t\tif not flat:\n")]
+_MVALID = ("\tif out is None:\n\t\tout = np.empty((nqueries, nrefs), SCORE_DTYPE)\n\telif out.shape != (nqueries, nrefs):\n\t\traise ValueError('Output array must have shape (nqueries, nrefs).')\n"
+           "\telif out.dtype != SCORE_DTYPE:\n\t\traise ValueError(f'Output array dtype must be {SCORE_DTYPE}, got {out.dtype}')\n")
+_PWTAIL = ("\tif flat:\n\t\tnext_out = 0\n\telse:\n\t\tnp.fill_diagonal(out, 0)\n\n\twith get_progress(progress, npairs) as meter:\n\t\tfor i in range(n - 1):\n" + _ROWCOL + "\n" + _ROWOUT
+           + "\n\t\t\tjaccarddist_array(row_sig, col_sigs, out=row_out)\n\t\t\tmeter.increment(ncol)\n\n\t\t\tif flat:\n\t\t\t\tnext_out += ncol\n\t\t\telse:\n\t\t\t\t# Copy to other side of diagonal\n\t\t\t\tout[cols, i] = out[i, cols]\n")
+_PWCALL = ("\t\t\trow_out = out[next_out:next_out+ncol] if flat else out[i, cols]\n\n\t\t\tjaccarddist_array(row_sig, col_sigs, out=row_out)\n\t\t\tmeter.increment(ncol)\n\n"
+           "\t\t\tif flat:\n\t\t\t\tnext_out += ncol\n\t\t\telse:\n\t\t\t\t# Copy to other side of diagonal\n\t\t\t\tout[cols, i] = out[i, cols]\n")
+
+
+def _unswitched(sel_test='indices is None', sel_else='sigs[indices[which]]', window='start, stop = stop, stop + (n - i - 1)', init='stop = 0', mirror='out[cols, i] = out[i, cols]', sq_range='range(n - 1)',
+                flat_cols='slice(i + 1, n)'):
+    return (f"\tif {sel_test}:\n\t\tdef select(which):\n\t\t\treturn sigs[which]\n\telse:\n\t\tdef select(which):\n\t\t\treturn {sel_else}\n\n\tif not flat:\n\t\tnp.fill_diagonal(out, 0)\n\n"
+            f"\twith get_progress(progress, npairs) as meter:\n\t\tif flat:\n\t\t\t{init}\n\t\t\tfor i in range(n - 1):\n\t\t\t\trow_sig = select(i)\n\t\t\t\tcol_sigs = select({flat_cols})\n\n\t\t\t\t{window}\n"
+            f"\t\t\t\tjaccarddist_array(row_sig, col_sigs, out=out[start:stop])\n\t\t\t\tmeter.increment(stop - start)\n\n\t\telse:\n\t\t\tfor i in {sq_range}:\n\t\t\t\trow_sig = select(i)\n\t\t\t\tcols = slice(i + 1, n)\n"
+            f"\t\t\t\tcol_sigs = select(cols)\n\n\t\t\t\tjaccarddist_array(row_sig, col_sigs, out=out[i, cols])\n\t\t\t\tmeter.increment(n - i - 1)\n\n\t\t\t\t{mirror}\n")
+
+
+def _two_sites(flat_out='out[start:start + ncol]', mirror='out[cols, i] = out[i, cols]', start='npairs - num_pairs(n - i)'):
+    return (f"\t\t\tif flat:\n\t\t\t\tstart = {start}\n\t\t\t\tjaccarddist_array(row_sig, col_sigs, out={flat_out})\n\t\t\t\tmeter.increment(ncol)\n"
+            f"\t\t\telse:\n\t\t\t\tjaccarddist_array(row_sig, col_sigs, out=out[i, cols])\n\t\t\t\tmeter.increment(ncol)\n\t\t\t\t{mirror}\n")
+
+
 VARIANTS = [
     V('output columns from a fresh slice', 'B', _P, "jaccarddist_array(query, ref_chunk, out=out[i, ref_slice])", "jaccarddist_array(query, ref_chunk, out=out[i, slice(0, len(ref_chunk))])", 'B5'),
     V('prange writes out[i + 1]', 'B', _X, "\t\tout[i] = c_jaccarddist(query, ref_coords[begin:end])", "\t\tout[i + 1] = c_jaccarddist(query, ref_coords[begin:end])", 'B2'),
@@ -1345,6 +1613,49 @@ VARIANTS = [
     V('E: condensed block bounded by two closed forms, ncol inlined', 'E', _P, _ROWOUT, "\t\t\trow_out = out[npairs - num_pairs(n - i):npairs - num_pairs(n - i - 1)] if flat else out[i, cols]\n", also=_NOCOUNTER),
     V('twin: closed-form block one cell short', 'B', _P, _ROWOUT, "\t\t\trow_out = out[npairs - num_pairs(n - i):npairs - num_pairs(n - i - 1) - 1] if flat else out[i, cols]\n", 'B6', also=_NOCOUNTER),
     V('twin: closed-form block used in square mode too', 'B', _P, _ROWOUT, "\t\t\trow_out = out[npairs - num_pairs(n - i):npairs - num_pairs(n - i - 1)]\n", 'B6', also=_NOCOUNTER),
+    # ---- second round: several fill sites, local accessor functions, parallel assignment, window counter
+    V('E: loop unswitched on flat, local accessor per arm of `indices is None`, (start, stop) window', 'E', _P, _PWTAIL, _unswitched()),
+    V('twin: accessor of the selection arm ignores the selection', 'B', _P, _PWTAIL, _unswitched(sel_else='sigs[which]'), 'B6'),
+    V('twin: accessor arms exchanged', 'B', _P, _PWTAIL, _unswitched(sel_test='indices is not None'), 'B6'),
+    V('twin: window advanced by one cell too many', 'B', _P, _PWTAIL, _unswitched(window='start, stop = stop, stop + (n - i)'), 'B6'),
+    V('twin: window starts at the new stop', 'B', _P, _PWTAIL, _unswitched(window='stop = stop + (n - i - 1)\n\t\t\t\tstart = stop'), 'B6'),
+    V('twin: window counter starts at 1', 'B', _P, _PWTAIL, _unswitched(init='stop = 1'), 'B6'),
+    V('twin: unswitched square loop without the mirror copy', 'B', _P, _PWTAIL, _unswitched(mirror='pass'), 'B6'),
+    V('twin: unswitched square loop skips the first row', 'B', _P, _PWTAIL, _unswitched(sq_range='range(1, n - 1)'), 'B6'),
+    V('twin: unswitched condensed loop takes the columns from i', 'B', _P, _PWTAIL, _unswitched(flat_cols='slice(i, n)'), 'B6'),
+    V('E: one loop, one call per layout', 'E', _P, _PWCALL, _two_sites()),
+    V('twin: condensed call site writes the square block', 'B', _P, _PWCALL, _two_sites(flat_out='out[i, cols]'), 'B6'),
+    V('twin: square call site mirrors into the wrong column', 'B', _P, _PWCALL, _two_sites(mirror='out[cols, i + 1] = out[i, cols]'), 'B6'),
+    V('twin: closed-form offset of the condensed call site one row late', 'B', _P, _PWCALL, _two_sites(start='npairs - num_pairs(n - i - 1)'), 'B6'),
+    V('E: row and column signatures by parallel assignment', 'E', _P, _ROWCOL,
+      "\t\t\tcols = slice(i + 1, n)\n\t\t\tncol = n - i - 1\n\t\t\tif indices is None:\n\t\t\t\trow_sig, col_sigs = sigs[i], sigs[cols]\n\t\t\telse:\n\t\t\t\trow_sig, col_sigs = sigs[indices[i]], sigs[indices[cols]]\n"),
+    V('twin: parallel assignment with the two values exchanged', 'B', _P, _ROWCOL,
+      "\t\t\tcols = slice(i + 1, n)\n\t\t\tncol = n - i - 1\n\t\t\tif indices is None:\n\t\t\t\trow_sig, col_sigs = sigs[i], sigs[cols]\n\t\t\telse:\n\t\t\t\tcol_sigs, row_sig = sigs[indices[i]], sigs[indices[cols]]\n", 'B6'),
+    V('twin: parallel assignment, columns not taken through the selection', 'B', _P, _ROWCOL,
+      "\t\t\tcols = slice(i + 1, n)\n\t\t\tncol = n - i - 1\n\t\t\tif indices is None:\n\t\t\t\trow_sig, col_sigs = sigs[i], sigs[cols]\n\t\t\telse:\n\t\t\t\trow_sig, col_sigs = sigs[indices[i]], sigs[cols]\n", 'B6'),
+    V('pairwise: list wrap applied to signature arrays instead of plain lists', 'B', _P, "\tif not isinstance(sigs, AbstractSignatureArray):", "\tif isinstance(sigs, AbstractSignatureArray):", 'B6'),
+    V('matrix: chunk list arms exchanged (chunk_slices with no chunk size)', 'B', _P, "\tif chunksize is None:\n\t\tref_slices = [slice(0, nrefs)]", "\tif chunksize is not None:\n\t\tref_slices = [slice(0, nrefs)]", 'B5'),
+    # ---- caller-supplied buffer: the polarity of the shape / dtype checks is decided per path
+    V('array: shape test inverted', 'B', _P, "\telif out.shape != (len(refs),):", "\telif out.shape == (len(refs),):", 'B1'),
+    V('array: shape test wrapped in not', 'B', _P, "\telif out.shape != (len(refs),):", "\telif not out.shape != (len(refs),):", 'B1'),
+    V('matrix: shape test inverted', 'B', _P, "\telif out.shape != (nqueries, nrefs):", "\telif out.shape == (nqueries, nrefs):", 'B1'),
+    V('pairwise: shape test inverted', 'B', _P, "\t\tif out.shape != out_shape:", "\t\tif out.shape == out_shape:", 'B1'),
+    V('array and matrix: dtype test inverted', 'B', _P, "\telif out.dtype != SCORE_DTYPE:", "\telif out.dtype == SCORE_DTYPE:", 'B1', count=2),
+    V('pairwise: dtype test inverted', 'B', _P, "\t\tif out.dtype != SCORE_DTYPE:", "\t\tif out.dtype == SCORE_DTYPE:", 'B1'),
+    V('array: buffer compared with the shape of something else', 'B', _P, "\telif out.shape != (len(refs),):", "\telif out.shape != (len(query),):", 'B1'),
+    V('matrix: dtype check dropped', 'B', _P, _MVALID, "\tif out is None:\n\t\tout = np.empty((nqueries, nrefs), SCORE_DTYPE)\n\telif out.shape != (nqueries, nrefs):\n\t\traise ValueError('Output array must have shape (nqueries, nrefs).')\n", 'B1'),
+    V('E: buffer checks as one disjunction', 'E', _P, _MVALID, "\tif out is None:\n\t\tout = np.empty((nqueries, nrefs), SCORE_DTYPE)\n\telif out.shape != (nqueries, nrefs) or out.dtype != SCORE_DTYPE:\n\t\traise ValueError('Bad output array.')\n"),
+    V('twin: disjunction written as a conjunction (one mismatch passes)', 'B', _P, _MVALID,
+      "\tif out is None:\n\t\tout = np.empty((nqueries, nrefs), SCORE_DTYPE)\n\telif out.shape != (nqueries, nrefs) and out.dtype != SCORE_DTYPE:\n\t\traise ValueError('Bad output array.')\n", 'B1'),
+    V('E: buffer checks as guard clauses under `out is not None`', 'E', _P, _MVALID,
+      "\tif out is not None:\n\t\tif out.shape != (nqueries, nrefs):\n\t\t\traise ValueError('Output array must have shape (nqueries, nrefs).')\n\t\tif out.dtype != SCORE_DTYPE:\n\t\t\traise ValueError('Output array dtype')\n"
+      "\telse:\n\t\tout = np.empty((nqueries, nrefs), SCORE_DTYPE)\n"),
+    V('twin: guard clauses, the shape clause raises on a match', 'B', _P, _MVALID,
+      "\tif out is not None:\n\t\tif out.shape == (nqueries, nrefs):\n\t\t\traise ValueError('Output array must have shape (nqueries, nrefs).')\n\t\tif out.dtype != SCORE_DTYPE:\n\t\t\traise ValueError('Output array dtype')\n"
+      "\telse:\n\t\tout = np.empty((nqueries, nrefs), SCORE_DTYPE)\n"),
+    V('twin: guard clauses, the dtype clause only runs for a wrong shape', 'B', _P, _MVALID,
+      "\tif out is not None:\n\t\tif out.shape != (nqueries, nrefs):\n\t\t\tif out.dtype != SCORE_DTYPE:\n\t\t\t\traise ValueError('Output array dtype')\n\t\t\traise ValueError('Output array must have shape (nqueries, nrefs).')\n"
+      "\telse:\n\t\tout = np.empty((nqueries, nrefs), SCORE_DTYPE)\n"),
     V('E: ncol = n - (i + 1)', 'E', _P, "ncol = n - i - 1", "ncol = n - (i + 1)"),
     V('E: cols = slice(1 + i, n)', 'E', _P, "cols = slice(i + 1, n)", "cols = slice(1 + i, n)"),
     V('E: begin/end inlined differently named', 'E', _X, "\t\tbegin = ref_bounds[i]\n\t\tend = ref_bounds[i+1]\n\t\tout[i] = c_jaccarddist(query, ref_coords[begin:end])",
